@@ -148,6 +148,10 @@ type world struct {
 	lastResp interface{}
 	lastErr  error
 	notify   chan bool
+	// slow NotifyCh reader (leader engine): the channel is unbuffered and read only at observation
+	// points; each value is taken together with what LeaderCh holds at that moment (0 / 1, 2 = empty)
+	slowNotify    bool
+	noteN, noteLC []int
 	// an optional transport put around the null transport (the catch-up engine's leader)
 	wrapTrans func(*nullTrans) raft.Transport
 }
@@ -173,6 +177,9 @@ func (w *world) start() (ok bool) {
 	conf.ShutdownOnRemove = false
 	conf.LeaderLeaseTimeout = 250 * time.Millisecond // (a quarter of the heartbeat timeout; only the leader engine lets it run)
 	w.notify = make(chan bool, 256)
+	if w.slowNotify {
+		w.notify = make(chan bool)
+	}
 	conf.NotifyCh = w.notify
 	w.trans = &nullTrans{addr: "11", ch: make(chan raft.RPC)}
 	w.c.reset(-1, -1)
@@ -264,7 +271,30 @@ func (w *world) fsmTok() string {
 }
 
 // obs renders one observation; writes = performed durable writes of the event
+// pumpNotify takes the notifications the main goroutine is waiting to deliver, one at a time
+func (w *world) pumpNotify() {
+	for w.r != nil {
+		select {
+		case b := <-w.notify:
+			lc := 2
+			select {
+			case v := <-w.r.LeaderCh():
+				lc = b2i(v)
+			default:
+			}
+			w.noteN, w.noteLC = append(w.noteN, b2i(b)), append(w.noteLC, lc)
+			synctest.Wait()
+			continue
+		default:
+		}
+		return
+	}
+}
+
 func (w *world) obs(panicked bool, resp string) string {
+	if w.slowNotify {
+		w.pumpNotify()
+	}
 	if w.dead {
 		return "X " + w.durableTok()
 	}
@@ -1022,7 +1052,7 @@ func TestEngine(t *testing.T) {
 			} else if *flagEngine == "lease" {
 				st.Rule = "3 or 5 real servers (optionally one non-voter), fault-free stretch of 2..22 virtual seconds with writes (leadership must not change), then the leader is cut off from every other voter at a recorded instant (a non-voter stays connected) and must give up leadership within 2 x LeaderLeaseTimeout and refuse writes afterwards"
 			} else {
-				st.Rule = "3 real servers, gap-tolerant or monotonic log stores; some writes; optionally one follower cut off; 0..3 writes in flight; user Restore on the leader with snapshot index 1 / last / last+1..5 / last/2 and 0..4 payloads; more writes; heal; 15 s quiet; final writes and dumps"
+				st.Rule = "3 real servers, gap-tolerant or monotonic log stores; some writes; optionally one follower cut off; 0..3 writes in flight; user Restore on the leader with snapshot index 1 / last / last+1..5 / last/2 and 0..4 payloads; more writes; heal; 15 s quiet; final writes and dumps; one non-racing case in four with a leadership transfer (to a cut-off follower, half the time also an entry behind) in progress when Restore is called"
 			}
 			for k := 0; k < *flagN; k++ {
 				if *flagOnly >= 0 && k != *flagOnly {
@@ -1061,7 +1091,7 @@ func TestEngine(t *testing.T) {
 				runFollowerCase(rng, *flagThorough, out, st, seen)
 			}
 		case "leader":
-			st.Rule = "one real server made leader (by decree or through a won campaign against scripted peers) on a generated image (1, 2, 3, 3+non-voter or 5 voters; 1..6 entries, optional snapshot / compacted prefix; gap-tolerant or monotonic store, optional commit tracking; MaxAppendEntries 1 / 2 / 64), its real runLeader / leaderLoop running with every replication and heartbeat request parked in the harness transport; 4..13 [thorough: 6..29] stimuli: Apply (also with a failing StoreLogs), Barrier, bursts of 2..6 calls queued while the loop is busy, AddVoter / AddNonvoter / DemoteVoter / RemoveServer (own id included, stale prevIndex, calls waiting for the gate), VerifyLeader, a follower acknowledging / refusing / answering with a newer term, heartbeats answered yes / no / not at all, requests of other servers reaching the loop; after the leadership ends up to two more requests; every case is non-trivial (the no-op is dispatched)"
+			st.Rule = "one real server made leader (by decree or through a won campaign against scripted peers) on a generated image (1, 2, 3, 3+non-voter or 5 voters; 1..6 entries, optional snapshot / compacted prefix; gap-tolerant or monotonic store, optional commit tracking; MaxAppendEntries 1 / 2 / 64), its real runLeader / leaderLoop running with every replication and heartbeat request parked in the harness transport; 4..13 [thorough: 6..29] stimuli: Apply (also with a failing StoreLogs), Barrier, bursts of 2..6 calls queued while the loop is busy, AddVoter / AddNonvoter / DemoteVoter / RemoveServer (own id included, stale prevIndex, calls waiting for the gate), VerifyLeader, a follower acknowledging / refusing / answering with a newer term, heartbeats answered yes / no / not at all, requests of other servers reaching the loop; after the leadership ends up to two more requests; every case is non-trivial (the no-op is dispatched); one case in four with a slow NotifyCh reader: the channel is unbuffered and read at observation points only, LeaderCh being sampled whenever a notification is waiting"
 			seen := map[string]bool{}
 			for k := 0; k < *flagN; k++ {
 				runLeaderCase(rng, *flagThorough, out, st, seen)
